@@ -320,9 +320,10 @@ impl Scenario for C03RandomFaults {
                 0 => crate::c17::encode(&w.text, crate::c17::Enc::Utf16Le, true),
                 1 => crate::c17::encode(&w.text, crate::c17::Enc::Utf16Be, false),
                 2 => crate::c17::encode(&w.text, crate::c17::Enc::Utf32Le, cx.tape.chance(1, 2)),
+                3 => crate::c17::encode(&w.text, crate::c17::Enc::Utf8, true),
                 _ => w.text.clone().into_bytes(),
             };
-            let spans: &[Span] = if enc >= 3 { &w.spans } else { &[] };
+            let spans: &[Span] = if enc >= 4 { &w.spans } else { &[] };
             let nfaults = 1 + cx.tape.draw(3);
             let mut names = Vec::new();
             let mut classes = Vec::new();
@@ -341,7 +342,7 @@ impl Scenario for C03RandomFaults {
             }
             let cfgs = Config::all(w.fragment);
             let mut cfg = *cx.tape.pick(&cfgs);
-            if enc < 3 {
+            if enc < 4 {
                 cfg.file_entry = true;
             }
             let plan = if cfg.file_entry { random_io_plan(cx) } else { BTreeMap::new() };
